@@ -1,6 +1,7 @@
 import TracklibVerif.Model.Graph
 import TracklibVerif.Model.GraphPD
 import TracklibVerif.Model.GraphSession
+import TracklibVerif.Model.GraphAStar
 import TracklibVerif.Drv.Util
 /-! Driver handler for C06 (network shortest distances), weights in `Rat` (exact stream) or `Float`
 (commands prefixed with `f`: weights, cut-offs and results are IEEE-754 bit patterns, the same model definitions instantiated at `Float`).
@@ -26,7 +27,12 @@ A graph is `<n> <edges>`: nodes `0..n-1`, edges `id,src,tgt,w,ori` separated by 
                                          `h,<s>,<t>` has_prepared_shortest_distance · `s,<s>,<cut>` sub_network (TOPOLOGIC) · `v` save_prep + load_prep ·
                                          `u` (read the caller's output_dict; `<0|1>` = whether that dictionary is passed);
                                          reply per op (`;`): `ok` / `err` / `f:<poids,…>|<visite,…>` / `v:<d>` / `l:<d,…>` /
-                                         `t:<s>.<v>.<d>,…` / `b:<0|1>` / `s:<node ids>|<edge ids>` -/
+                                         `t:<s>.<v>.<d>,…` / `b:<0|1>` / `s:<node ids>|<edge ids>`
+  [f]world <nets> <ops>                → several `Network` objects with their routing settings (`Model/GraphAStar.lean`). `<nets>` = `|`-separated
+                                         `<n>;<E>,<N>,<U>;…` (bound on node ids, then the ENU coordinates of node 0 … n-1); `<ops>` = `;`-separated
+                                         `<k>:<op>` with `<op>` = `c` (`Network()`: object `k` is created, `k` = number of objects so far) ·
+                                         `m,<mode>` setRoutingMethod · `w,<weight>` setAStarWeight · `u` · any `sess` call; replies as for `sess`.
+                                         In the exact stream every distance between two nodes of a network must be rational (else `bad-request`). -/
 namespace TV.Drv.C06
 open TV.Graph TV.Drv
 
@@ -223,6 +229,120 @@ def sessRun (n : Nat) (σ : Sess Rat) : List String → Option (List String)
         let r := exec σ o
         (sessRun n r.1 rest).map (showOut n r.2 :: ·)
 
+/-! several `Network` objects, each with its routing settings (`Model/GraphAStar.lean`) -/
+section world
+variable {W : Type} (pw : String → Option W) (sw : W → String) (sqrt : W → W) (okPos : List (Pos W) → Bool)
+
+def showTableW (n : Nat) (tb : Table W) : String :=
+  joinWith "," ((List.range n).flatMap (fun s => (List.range n).filterMap (fun v =>
+    (tb (s, v)).map (fun d => s!"{s}.{v}.{sw d}"))))
+
+def showOutW (n : Nat) : Out W → String
+  | .unit => "ok"
+  | .err => "err"
+  | .flags d vis => s!"f:{showList (showOpt sw) d}|{showList showBool vis}"
+  | .val d => s!"v:{showOpt sw d}"
+  | .vals ds => s!"l:{showList (showOpt sw) ds}"
+  | .table tb => s!"t:{showTableW sw n tb}"
+  | .bool b => s!"b:{showBool b}"
+  | .subnet ns es => s!"s:{showList toString ns}|{showList toString es}"
+
+def flagW? (s : String) : Option Bool := if s == "1" then some true else if s == "0" then some false else none
+
+def opW? (s : String) : Option (Op W) :=
+  match splitTok s ',' with
+  | ["n", v] => v.toNat?.map .addNode
+  | ["e", i, a, b, w, o] => do
+    let i ← i.toNat?; let a ← a.toNat?; let b ← b.toNat?; let w ← pw w; let o ← o.toInt?
+    some (.addEdge { id := i, src := a, tgt := b, w := w, ori := o })
+  | ["r", a, t, c, u] => do
+    let a ← a.toNat?; let c ← cutW? pw c; let u ← flagW? u
+    if t == "_" then some (.route a none c u) else (t.toNat?).map (fun t => .route a (some t) c u)
+  | ["d", a, t, c, u] => do
+    let a ← a.toNat?; let t ← t.toNat?; let c ← cutW? pw c; let u ← flagW? u
+    some (.dist a t c u)
+  | ["l", a, c, u] => do
+    let a ← a.toNat?; let c ← cutW? pw c; let u ← flagW? u
+    some (.distList a c u)
+  | ["a", c, u] => do let c ← cutW? pw c; let u ← flagW? u; some (.all c u)
+  | ["p", c] => (cutW? pw c).map .prepare
+  | ["q", a, t] => do let a ← a.toNat?; let t ← t.toNat?; some (.prepared a t)
+  | ["h", a, t] => do let a ← a.toNat?; let t ← t.toNat?; some (.hasPrepared a t)
+  | ["s", a, c] => do let a ← a.toNat?; let c ← cutW? pw c; some (.sub a c)
+  | ["v"] => some .saveLoad
+  | _ => none
+
+def wop? (s : String) : Option (WOp W) :=
+  match splitTok s ',' with
+  | ["m", m] => m.toNat?.map .setMethod
+  | ["w", w] => (pw w).map .setWeight
+  | _ => (opW? pw s).map .call
+
+def pos? (s : String) : Option (Pos W) :=
+  match splitTok s ',' with
+  | [a, b, c] => do let a ← pw a; let b ← pw b; let c ← pw c; some { e := a, n := b, u := c }
+  | _ => none
+
+/-- `<n>;<E>,<N>,<U>;…`: exactly `n` positions -/
+def netSpec? (s : String) : Option (Nat × List (Pos W)) :=
+  match splitTok s ';' with
+  | n :: ps => do
+    let n ← n.toNat?
+    let ps ← ps.mapM (pos? pw)
+    if ps.length == n && okPos ps then some (n, ps) else none
+  | [] => none
+
+variable [LT W] [DecidableLT W] [Add W] [Sub W] [Mul W] [OfNat W 0] [OfNat W 1]
+
+def worldRun (specs : List (Nat × List (Pos W))) (w : World W) : List String → Option (List String)
+  | [] => some []
+  | tokn :: rest =>
+    match tokn.splitOn ":" with
+    | [k, op] =>
+      match k.toNat?, specs[k.toNat?.getD 0]? with
+      | some k, some (n, ps) =>
+        if op == "c" then
+          if k == w.length then
+            match ps.head? with
+            | none => if n == 0 then (worldRun specs (execWorld sqrt w (.create n (fun _ => ⟨0, 0, 0⟩))).1 rest).map ("ok" :: ·) else none
+            | some p0 => (worldRun specs (execWorld sqrt w (.create n (fun v => ps[v]?.getD p0))).1 rest).map ("ok" :: ·)
+          else none
+        else if op == "u" then
+          match w[k]? with
+          | some o => (worldRun specs w rest).map (s!"t:{showTableW sw n o.sess.udict}" :: ·)
+          | none => none
+        else
+          match wop? pw op with
+          | none => none
+          | some o =>
+            if k < w.length then
+              let r := execWorld sqrt w (.on k o)
+              (worldRun specs r.1 rest).map (showOutW sw n r.2 :: ·)
+            else none
+      | _, _ => none
+    | _ => none
+
+def handleWorld (args : List String) : String :=
+  match args with
+  | [nets, ops] =>
+    match ((if nets == "_" then [] else nets.splitOn "|").mapM (netSpec? pw okPos)) with
+    | some specs =>
+      match worldRun pw sw sqrt specs [] (splitTok ops ';') with
+      | some out => joinWith ";" out
+      | none => "bad-request"
+    | none => "bad-request"
+  | _ => "bad-request"
+end world
+
+/-- exact stream: every distance between two node positions must be rational -/
+def okPosRat (ps : List (Pos Rat)) : Bool :=
+  ps.all (fun a => ps.all (fun b =>
+    let dE := b.e - a.e; let dN := b.n - a.n; let dU := b.u - a.u
+    isSquareRat (dE * dE + dN * dN + dU * dU)))
+
+/-- float stream: no NaN coordinate (`fl?` has refused them already) -/
+def okPosFloat (_ : List (Pos Float)) : Bool := true
+
 def handle (cmd : String) (args : List String) : String :=
   match cmd, args with
   | "pq", [init, ops] =>
@@ -248,6 +368,8 @@ def handle (cmd : String) (args : List String) : String :=
       | some out => joinWith ";" out
       | none => "bad-request"
     | none => "bad-request"
+  | "world", _ => handleWorld rat? showRat sqrtRat okPosRat args
+  | "fworld", _ => handleWorld fl? showFloat Float.sqrt okPosFloat args
   | _, _ =>
     if cmd.startsWith "f" then handleW fl? showFloat (cmd.drop 1).toString args
     else handleW rat? showRat cmd args
